@@ -49,7 +49,7 @@ def run(tier: str, opts: dict) -> int:
     want = {}
     n_exec = 0
     for profile in (sqlgen.TABLE_PROFILE, sqlgen.COLUMN_PROFILE):
-        cs, n = enumerate_cases(profile, D, 2)
+        cs, n = enumerate_cases(profile, D, 2, new_alt_bound=None if tier == "quick" else 1)
         n_exec += n
         for sql, (st, trace, ndev) in cs:
             f = sqlgen.features(st)
